@@ -696,6 +696,10 @@ class PropertyFilter:
         if not self.children and not self.time_range:
             return bool(indexes[myindex])
 
+        if myindex in indexes and not indexes[myindex]:
+            # The property itself has to exist for its sub-filters to match.
+            return False
+
         if self.time_range is not None and not self.time_range.match_indexes(
             subindexes, tzify
         ):
@@ -932,14 +936,25 @@ class ICalendarFile(File):
             if not segments:
                 yield True
             elif segments[0].startswith("P="):
-                assert len(segments) == 1
                 try:
                     p = c[segments[0][2:]]
                 except KeyError:
                     pass
                 else:
-                    if p is not None:
+                    if p is None:
+                        pass
+                    elif len(segments) == 1:
                         yield p.to_ical()
+                    elif len(segments) == 2 and segments[1].startswith("A="):
+                        # Parameter values, as announced by
+                        # ParameterFilter.index_keys().
+                        for v in p if isinstance(p, list) else [p]:
+                            try:
+                                yield v.params[segments[1][2:]].encode("utf-8")
+                            except KeyError:
+                                pass
+                    else:
+                        raise AssertionError(f"segments: {segments!r}")
             else:
                 raise AssertionError(f"segments: {segments!r}")
 
